@@ -209,6 +209,9 @@ var readerFns = []string{
 	"sigbits.FirstDiffBits", "sigbits.New", "sigbits.CountPrefixes", "sigbits.ShardByPrefix",
 }
 
+// hugeFns run on the world's huge key list only (when it has one).
+var hugeFns = []string{"sigbits.HugeFirstDiffBits", "sigbits.HugeShardByPrefix", "sigbits.HugeNew"}
+
 var fmtUsing = map[string]bool{"bmtree.PathStr": true, "bitmap.Fmt": true}
 
 // execOp performs one catalogue operation on the shared world. It never
@@ -587,6 +590,26 @@ func execBitword(w *world, op ROp) (out rOutcome) {
 }
 
 func execSigbits(w *world, op ROp) (out rOutcome) {
+	switch op.Fn {
+	case "sigbits.HugeFirstDiffBits", "sigbits.HugeShardByPrefix", "sigbits.HugeNew":
+		if w.huge == nil {
+			return
+		}
+		switch op.Fn {
+		case "sigbits.HugeFirstDiffBits":
+			out.i32s = sigbits.FirstDiffBits(w.huge)
+		case "sigbits.HugeShardByPrefix":
+			p, c := sigbits.ShardByPrefix(w.huge, int32(64+mod(op.A, 200)))
+			out.i32s = append(append([]int32(nil), p...), -1)
+			out.i32s = append(out.i32s, c...)
+		case "sigbits.HugeNew":
+			sb := sigbits.New(w.huge)
+			m, c := sb.CountPrefixes(int32(mod(op.A, 1000)), int32(len(w.huge))-int32(mod(op.B, 1000)), int32(1+mod(op.C, 40)))
+			out.ints = []int64{int64(m)}
+			out.i32s = c
+		}
+		return
+	}
 	k := w.keys[mod(int64(op.Obj), int64(len(w.keys)))]
 	n := int64(len(k.keys))
 	switch op.Fn {
@@ -644,10 +667,19 @@ func genReaders(seed uint64, allowFmt bool, cold bool, deepTier bool) *ReadersPl
 		}
 		focus = append(focus, f)
 	}
+	if p.World.HugeKeys > 0 {
+		// a run with a huge key list is ABOUT it: a few calls per task on that list
+		p.RefAfter = false
+		nt = 2
+		focus = hugeFns
+	}
 	for t := 0; t < nt; t++ {
 		nops := 5 + r.Intn(36)
 		if deepTier && r.Chance(1, 5) {
 			nops = 40 + r.Intn(60)
+		}
+		if p.World.HugeKeys > 0 {
+			nops = 1 + r.Intn(2)
 		}
 		if p.RefAfter {
 			nops = 30 + r.Intn(11)
